@@ -108,17 +108,16 @@ Section Wrs.
 
   Definition is_addr (q : N) : bool := (q =? TypeA) || (q =? TypeAAAA).
 
+  (* if err := wrs.Add(rec, result); err != nil { log }: an error leaves the sample unchanged *)
+  Definition add_row (w : wrs) (r : row) : wrs :=
+    match add w (rq r) (rkey r, rpay r) with Ok w' => w' | Err _ => w end.
+
   (* parseResult *)
   Definition parse_result (qtype : N) (s : fstate) (r : row) : fstate :=
-    let s := mkF (fw s) (fans s) true in
     if (rq r =? TypeCNAME) || (rq r =? qtype) || (qtype =? TypeANY) then
-      if is_addr (rq r) then
-        match add (fw s) (rq r) (rkey r, rpay r) with
-        | Ok w' => mkF w' (fans s) true
-        | Err _ => s                         (* logged, ignored; unreachable for A/AAAA *)
-        end
+      if is_addr (rq r) then mkF (add_row (fw s) r) (fans s) true
       else mkF (fw s) (fans s ++ [rpay r]) true
-    else s.
+    else mkF (fw s) (fans s) true.
 
   Definition recs_or_nil (w : wrs) (q : N) : list A :=
     match records w q with Ok l => map snd l | Err _ => [] end.
@@ -150,15 +149,20 @@ Section Wrs.
      want4/want6 = the section does not yet hold an A/AAAA of that name.
      Extra gets the AAAA record first, then the A record. *)
   Definition add_parse (want4 want6 : bool) (w : wrs) (r : row) : wrs :=
-    if ((rq r =? TypeA) && want4) || ((rq r =? TypeAAAA) && want6) then
-      match add w (rq r) (rkey r, rpay r) with Ok w' => w' | Err _ => w end
-    else w.
+    if ((rq r =? TypeA) && want4) || ((rq r =? TypeAAAA) && want6) then add_row w r else w.
 
   Definition additional (want4 want6 : bool) (rows : list row) : list A * list A * bool :=
     if want4 || want6 then
       let w := fold_left (add_parse want4 want6) rows (wrs_new 1) in
       (recs_or_nil w TypeAAAA, recs_or_nil w TypeA, weighted w)
     else ([], [], false).
+
+  (* every row handed to Wrs.Add, in order *)
+  Definition feed (max : Z) (rows : list row) : wrs := fold_left add_row rows (wrs_new max).
+
+  (* the items of one family among the rows, in order *)
+  Definition fam_items (q : N) (rows : list row) : list item :=
+    map (fun r => (rkey r, rpay r)) (filter (fun r => rq r =? q) rows).
 
   (* the per-family core used by the theorems: feeding one slot list *)
   Definition run (max : Z) (cs : list item) : list item := fold_left (add_items max) cs [].
@@ -188,6 +192,7 @@ Arguments mkF {K A}.
 Arguments fw {K A}.
 Arguments fans {K A}.
 Arguments ffound {K A}.
+Arguments add_row {K} klt {A}.
 Arguments parse_result {K} klt {A}.
 Arguments recs_or_nil {K} kpos {A}.
 Arguments find_levels {K} klt kpos {A}.
@@ -196,6 +201,9 @@ Arguments nxdomain {A}.
 Arguments add_parse {K} klt {A}.
 Arguments additional {K} klt kpos {A}.
 Arguments run {K} klt {A}.
+Arguments feed {K} klt {A}.
+Arguments fam_items {K A}.
+Arguments is_addr : simpl never.
 
 (* ---- key instances ---- *)
 
